@@ -72,7 +72,7 @@ def _root_names(node):
     return out
 
 
-def parse_stub(text: str, target_module: Optional[str]) -> StubInfo:
+def parse_stub(text: str, target_module: Optional[str], lenient_names: bool = False) -> StubInfo:
     try:
         tree = ast.parse(text)
     except SyntaxError as e:
@@ -83,7 +83,7 @@ def parse_stub(text: str, target_module: Optional[str]) -> StubInfo:
     if target_module is not None:
         mod = importlib.import_module(target_module)
         for k, v in vars(mod).items():
-            if isinstance(v, type) and getattr(v, "__module__", None) == target_module:
+            if lenient_names or (isinstance(v, type) and getattr(v, "__module__", None) == target_module):
                 ns[k] = v
     # 1. the import block
     for st in tree.body:
